@@ -99,7 +99,7 @@ fn johnson_n3() {
 }
 
 // Johnson75 over every digraph on 3 vertices (AdjacencyMap + Tarjan inside; recursion bounded at depth 4).
-// @verif prop=C10 tier=thorough fl=f2 feat=map4 role=circuits/n3 t=3600 mem=30 rec=::connect:4;::circuit:4;::unblock:4
+// @verif prop=C10 tier=exp fl=f2 feat=map4 role=circuits/n3 t=3600 mem=30 rec=::connect:4;::circuit:4;::unblock:4
 #[cfg_attr(kani, kani::proof)]
 #[cfg_attr(kani, kani::unwind(7))]
 pub fn c10_johnson_n3() {
